@@ -438,6 +438,13 @@ pub fn apply_env(w: &mut World, ev: &EnvEv) -> bool {
                 w.staking.redelegation_blocked.remove(validator)
             }
         }
+        EnvEv::Jail { validator, on } => {
+            if *on {
+                w.staking.jailed.insert(validator.clone())
+            } else {
+                w.staking.jailed.remove(validator)
+            }
+        }
         EnvEv::NewChainValidator { name } => w.staking.validators.insert(name.clone()),
         EnvEv::SwapMode(m) => {
             let ch = w.ext.swap_mode != *m;
